@@ -149,6 +149,13 @@ def replay_family(chk: Check, fam, data, tier):
                         got_s = ser.intersects_bounds(orders[0])
                         if list(got_s.index) != list(ser.index) or not np.array_equal(got_s.values, np.asarray(arr.intersects_bounds(orders[0]))):
                             report(chk, kind, els, aff, subtype, orders[0], B, 0, "GeoSeries", None, None)
+                        if b % 151 == 7 and len(arr) >= 2 and chk.budget("dask", 40 if tier == "quick" else 400):
+                            import dask
+                            import dask.dataframe as dd
+                            with dask.config.set(scheduler="synchronous"):
+                                got_d = dd.from_pandas(ser, npartitions=min(3, len(arr)), sort=False).intersects_bounds(orders[0]).compute()
+                            if list(got_d.index) != list(ser.index) or not np.array_equal(got_d.values, got_s.values):
+                                report(chk, kind, els, aff, subtype, orders[0], B, 0, "DaskGeoSeries (3 partitions)", None, None)
                 # scalar form: every element against a rotating sample of boxes (all boxes in thorough tier)
                 if subtype in ("float64", "int32") or tier == "thorough":
                     step = 1 if tier == "thorough" else 9
